@@ -10,14 +10,16 @@ T == ndJsonDeserialize(IOEnv.TRACE)
 NT == Len(T)
 Ev == T[l]
 TInit == Init /\ l = 1
-Pre == cnt = Ev.cnt /\ depth = Ev.depth          \* the recorded values are those before the step takes effect (acquire/leave log after)
+\* Decisive is the real mutex: who holds it and how deep.  The library's shadow counter (Ev.cnt) is recorded but not compared:
+\* it has no effect on behaviour, so a change to how it is clamped must not raise an alarm.
+Pre == depth = Ev.depth
 Step == CASE Ev.ev = "reset" -> /\ holder' = 0 /\ depth' = Ev.depth /\ cnt' = Ev.cnt /\ owner' = 0
                                 /\ pc' = [t \in Threads |-> "idle"] /\ spin' = [t \in Threads |-> 0] /\ want' = [t \in Threads |-> 0]
           [] Ev.ev = "enter" -> Enter(Ev.t) /\ Pre
           \* an acquisition is logged after the mutex was taken but before the shadow counter is incremented
-          [] Ev.ev = "try" -> Try(Ev.t) /\ (Ev.ok = (pc'[Ev.t] = "cs")) /\ cnt = Ev.cnt /\ (IF Ev.ok THEN depth' = Ev.depth ELSE depth = Ev.depth)
-          [] Ev.ev = "force" -> Force(Ev.t) /\ cnt' = Ev.cnt /\ depth = Ev.depth
-          [] Ev.ev = "leave" -> Leave(Ev.t) /\ cnt' = Ev.cnt /\ depth' = Ev.depth
+          [] Ev.ev = "try" -> Try(Ev.t) /\ (Ev.ok = (pc'[Ev.t] = "cs")) /\ (IF Ev.ok THEN depth' = Ev.depth ELSE depth = Ev.depth)
+          [] Ev.ev = "force" -> Force(Ev.t) /\ depth = Ev.depth
+          [] Ev.ev = "leave" -> Leave(Ev.t) /\ depth' = Ev.depth
           [] Ev.ev = "end" -> UNCHANGED vars /\ Ev.ok /\ depth = 0 /\ depth = Ev.depth /\ \A t \in Threads : pc[t] = "idle"
 \* deterministic replay: exactly one step per event; if no step of the specification matches, the behaviour ends there
 TNext == l <= NT /\ l' = l + 1 /\ Step
